@@ -180,6 +180,28 @@ def unmarshalFromG2 (stream : Bytes) : Nat × Out G2 :=
     else if rest.length < 128 then (1 + rest.length, .err .ueof)
     else (129, unmarshalG2 (t :: rest.take 128))
 
+/-! ### the receiver.  `p.UnmarshalBinary(buf)` / `p.UnmarshalFrom(r)` are methods of a point object that
+already holds some state (fresh, `Null()`, `Base()`, a `Mul` result, the result of an earlier successful or
+failed decode).  After the repairs the code never reads that state: every coordinate, `z` and `t` are
+overwritten on every path.  The model says so by ignoring the receiver argument; the correspondence cases
+`seq`/`into` make it a check of the code. -/
+
+def unmarshalG1Into (_recv : G1) (buf : Bytes) : Out G1 := unmarshalG1 buf
+def unmarshalG2Into (_recv : G2) (buf : Bytes) : Out G2 := unmarshalG2 buf
+def unmarshalGTInto (_recv : GT) (buf : Bytes) : Out GT := unmarshalGT buf
+
+/-- the receiver after a call: the decoded element, or (after an error) some unspecified state `junk` -/
+def recvAfter (junk : α) : Out α → α
+  | .ok v => v
+  | _ => junk
+
+/-- a sequence of decodes through ONE receiver (`junk i` = whatever a failed decode leaves behind) -/
+def decodeSeq (dec : α → Bytes → Out α) (junk : Nat → α) : α → List Bytes → List (Out α)
+  | _, [] => []
+  | recv, b :: bs =>
+    let o := dec recv b
+    o :: decodeSeq dec junk (recvAfter (junk bs.length) o) bs
+
 /-! ### Montgomery level: what the limbs of a decoded point hold, and what `MarshalBinary` emits.
 A limb quadruple is a number `< 2^256`.  `MarshalBinary` writes `montDecode` of each limb
 quadruple; `UnmarshalBinary` stores `montEncode` of each coordinate read. -/
